@@ -89,6 +89,32 @@ META = {
                      "recomputed in the bounded layer. gp.predict / gp.update are assumed contracts on gpyreg (T4: predict pure, update leaves the training set alone). "
                      "That the pair passed to add_and_update_gp at its call site is the one just returned by the logger, and that local_gp_fitting stores the selected set unchanged, "
                      "are checked on real runs by the bounded panel only."),
+    "C16": dict(level="proof",
+                text="For every number (< 10 in a row per refit; any finite number for the initial training) and placement of linear-algebra failures of GP.fit / GP.update(hyp=), the three real "
+                     "functions that call them let no exception escape, the retry loops terminate, and every retry hands gpyreg a consistent training set (inputs, targets and noise variances "
+                     "of equal length, also after points were dropped).",
+                note=PROOF_NOTE + " gpyreg is outside the verified fragment: GP.fit / GP.update are assumed contracts (may raise only LinAlgError, within a ghost fault budget; other GP methods "
+                     "do not raise and leave the training set alone). That optimize() as a whole completes and keeps the other guarantees after such failures is a bounded observation "
+                     "(fault injection on full runs), not a proof: the run-level contracts of the other properties do not depend on the GP's values but were not re-proved under the fault model."),
+    "C08": dict(level="proof",
+                text="For every combination of finite, infinite and NaN bounds and start coordinates and D = 1, 2, 3 (as the property quantifies): the real _bounds_check_ returns normally only for "
+                     "valid definitions and raises ValueError only for invalid ones (two recorded exceptions), and accepted definitions are normalised as stated.",
+                note=PROOF_NOTE + " Floats are mathematical extended reals: rounding-distance cases are outside the proof (one known finding there comes from the bounded layer). "
+                     "Preconditions: one start point given or omitted as a whole, bounds already 1 x D arrays, no constraint function. The argument spellings handled by BADS.__init__ "
+                     "(lists, scalars, integer dtype, omitted arguments, dimension inference) and 'no target call at construction' are checked by the bounded layer only."),
+    "C07": dict(level="other",
+                text="The causes of irreproducibility that effect contracts and scans over the real source can decide: the seed is applied (contract on _init_random_seed_) before every "
+                     "statement that can draw from NumPy's global generator in the constructor and in optimize(), nothing in the library writes module-level or class-level state or reads "
+                     "the clock / OS entropy outside the timer, and the Sobol design is seeded explicitly. The two-run statement itself is only observed (bounded).",
+                note="Not a proof of the hyperproperty: bit-for-bit determinism of NumPy / SciPy / gpyreg given equal inputs and equal generator state is assumed (T3/T4), the call-graph "
+                     "closure resolves callees by simple name (over-approximation), and aliasing of mutable state through object attributes is not tracked. The bounded layer compares real runs "
+                     "under different process histories."),
+    "C20": dict(level="exploration",
+                text="Bounded exploration on the real code (labelled bounded, nothing counted as proved): every option name x D = 1..3 as a single override, subsets of overrides, unknown names, "
+                     "defaults against an independent evaluation of the option files, construct/run orders of several instances, caller-owned dict and arrays compared before and after; "
+                     "plus syntactic obligations on the loader's structure and a global-state frame scan.",
+                note="Contract-based verification does not apply to the loader itself (exec/eval of option-file text, configparser, dict subclass with symbolic string keys): outside the "
+                     "language fragment of the verifier; see DESIGN.md. The bound: option values are one tweak per option, D <= 4, 4 instances per order."),
     "C04": dict(level="proof",
                 text="For deterministic targets the returned point is a logged evaluation with exactly the logged value and no logged value is lower: an invariant "
                      "(incumbent logged, minimal, fval == yval, fsd == 0) proved for the initial design, every search step, every poll loop iteration and the main loop, "
